@@ -589,7 +589,7 @@ func propC02() *PropSpec {
 			js = append(js, jobsN("js", "VerifJSRenameChain", []int{0, 1}, "0: three nested functions with parameters; 1: four nested parameterless functions/arrows around one outer variable")...)
 			js = append(js, jobsN("js", "VerifJSRenameBlocks", []int{0}, "blocks nested three deep: lexical bindings per level x hoisted vars in the innermost block x use counts")...)
 			js = append(js, jobsN("js", "VerifJSRenameWith", []int{0}, "with-function built from 3 of 11 parts (methods, getters, classes, nested functions; catch/for/block/switch scopes with `with`)")...)
-			js = append(js, jobsN("js", "VerifJSRenameShapes", []int{0}, "16 scope shapes (dissolved else-blocks in switch / loops / labels, catch parameters, default parameters, named function expressions, class static blocks, with at the top level) x 4 target versions")...)
+			js = append(js, jobsN("js", "VerifJSRenameShapes", []int{0}, "21 scope shapes (dissolved else-blocks in switch / loops / labels, catch parameters, default parameters, named function expressions, class static blocks, with at the top level, closures over block-scoped bindings) x 4 target versions")...)
 			js = append(js, Job{Pkg: "js", Fn: "VerifJSEvalTwin", N: 0, ExpectFail: true, Desc: "vacuity twin"})
 			return js
 		},
